@@ -130,6 +130,23 @@ Proof.
   - vm_compute. auto.
 Qed.
 
+(** Non-vacuity across a withdrawal (the history of witness
+    w11-withdraw-then-late-copy): A0-B1, A0-C2, C2-B1, B1-D3; A announces, B
+    relays to D, A withdraws and B handles the withdrawal, only then C relays
+    its copy of the announcement to B: B and D still process (0,2) exactly
+    once and B forwards it to D exactly once; nothing expired. *)
+Definition wd_ops : list op :=
+  [C 0 1; C 0 2; C 2 1; C 1 3; L0 0 1 0; A 0; D 0; D 2; W 0; D 2; D 0; D 0; D 0; D 0; D 0; D 0; D 0; D 0].
+
+Example C11_example_across_withdrawal :
+  no_expiry [] (init 4) wd_ops 1 0 2 /\
+  processed_count [] (init 4) wd_ops 1 0 2 = 1%nat /\ processed_count [] (init 4) wd_ops 3 0 2 = 1%nat /\
+  forwards_count [] (init 4) wd_ops 1 3 0 2 = 1%nat /\
+  processed_count [] (init 4) wd_ops 1 0 3 = 1%nat /\ st_flight (run [] (init 4) wd_ops) = [].
+Proof.
+  split; [apply no_expiry_syntactic; reflexivity | vm_compute; repeat split; reflexivity].
+Qed.
+
 Section SourceFacts.
 Import String.
 Local Open Scope string_scope.
@@ -141,12 +158,21 @@ Local Open Scope string_scope.
     concurrently over several peer connections), then checks seen-by, stores
     and floods in that order; the forwarded copy carries seen-by + local id; floodFrame
     skips the sender and every agent in seen-by; entries expire when strictly
-    older than the TTL (300 s), checked on a ticker of period TTL/2. *)
+    older than the TTL (300 s), checked on a ticker of period TTL/2.
+    ROUTE_WITHDRAW uses the same cache with the same key expression (origin of
+    the withdrawal and its sequence, never the relaying peer), the same
+    one-lock-region test-and-set and the same flooding with the local id
+    appended; nothing but the TTL cleanup (and the explicit clear) removes
+    entries from the seen cache. *)
 Theorem C11_source_facts :
   gen_seen_key_fields = ["OriginAgent"; "Sequence"] /\
   gen_seen_key_origin_arg = "originAgent" /\ gen_seen_key_sequence_arg = "sequence" /\
   gen_handle_order_lookup_mark_loopcheck_store_flood = true /\
   gen_seen_check_and_mark_in_one_lock_region = true /\
+  gen_withdraw_seen_key_origin_arg = "originAgent" /\ gen_withdraw_seen_key_sequence_arg = "sequence" /\
+  gen_withdraw_check_and_mark_in_one_lock_region = true /\
+  gen_withdraw_mark_loopcheck_process_flood_with_self_appended = true /\
+  gen_only_cleanup_removes_seen_entries = true /\ gen_withdraw_origin_fresh_sequence_own_id = true /\
   gen_forward_appends_self_to_seenby = true /\
   gen_floodframe_skips_sender_and_seenby = true /\ gen_flood_passes_sender_and_seenby = true /\
   gen_seen_ttl_seconds = seen_ttl /\ seen_ttl / gen_cleanup_ticks_per_ttl = cleanup_period /\
